@@ -93,16 +93,31 @@ C08 = [
     ("I_pow", "I_pow", None),
     ("U_ilog2", "U_ilog2", None),
     ("U_checked_ilog2", "U_checked_ilog2", None),
-    ("I_checked_pow", "I_checked_pow", None),
-    ("I_overflowing_pow", "I_overflowing_pow", None),
+    ("I_checked_pow", "I_checked_pow",
+     "intros. unfold Glue.I_checked_pow, I_checked_pow. rewrite land1_even.\n  destruct (U_checked_pow w (I_unsigned_abs w a) k); reflexivity."),
+    ("I_overflowing_pow", "I_overflowing_pow",
+     "intros. unfold Glue.I_overflowing_pow, I_overflowing_pow. rewrite land1_odd1.\n  destruct (U_overflowing_pow w (I_unsigned_abs w a) k) as [u o].\n  destruct (is_negative w a && Z.odd k); reflexivity."),
 ]
 
+C08_PRELUDE = """
+(* `pow & 1 == 0` / `pow & 1 == 1` (bint checked_pow, overflowing_pow) are the model's Z.even / Z.odd *)
+Lemma land1_even e : (Z.land e 1 =? 0) = Z.even e.
+Proof. rewrite <- Z.negb_odd, <- land1_odd, Bool.negb_involutive. reflexivity. Qed.
+Lemma land1_odd1 e : (Z.land e 1 =? 1) = Z.odd e.
+Proof.
+  destruct e as [|p|p]; try reflexivity; destruct p as [q|q|]; try reflexivity; destruct q; reflexivity.
+Qed.
+"""
+
 SPEC = {
-    "C01": ("addsub2", "abs, unsigned_abs, abs_diff, midpoint of src/buint/mod.rs and src/bint/mod.rs", False, "", C01),
+    "C01": ("addsub2", "abs, unsigned_abs, abs_diff, midpoint of buint/mod.rs and bint/mod.rs; BInt::neg; unchecked_add / unchecked_sub",
+            False, "", C01),
     "C02": ("mul2", "unchecked_mul of src/int/unchecked.rs", False, "", C02),
-    "C03": ("div2", "div_euclid, rem_euclid, div_floor, div_ceil, next_multiple_of of src/buint/mod.rs and src/bint/mod.rs", False, "", C03),
-    "C05": ("rotate", "rotate_left/right, unbounded_shl/shr of src/buint/mod.rs and src/bint/mod.rs", False, "", C05),
-    "C06": ("bits", "bits, bit, the bit counts of BInt, swap_bytes / reverse_bits of BInt, is_power_of_two, next_power_of_two, is_zero / is_one, cast_signed / cast_unsigned", True, "", C06),
-    "C07": ("sign", "signum, is_positive, is_negative", True, "", C07),
-    "C08": ("pow", "pow, ilog2", True, "", C08),
+    "C03": ("div2", "div_euclid, rem_euclid, div_floor, div_ceil, next_multiple_of, checked_next_multiple_of; bint div_rem_unchecked, "
+            "overflowing_div, overflowing_div_euclid, overflowing_rem_euclid; the inherent div / rem of const_trait_fillers.rs", False, "", C03),
+    "C05": ("rotate", "rotate_left/right, unbounded_shl/shr of buint/mod.rs and bint/mod.rs; unchecked_shl / unchecked_shr", False, "", C05),
+    "C06": ("bits", "bits, bit, the bit counts of BInt, swap_bytes / reverse_bits of BInt, is_power_of_two, (checked_)next_power_of_two, "
+            "is_zero / is_one, cast_signed / cast_unsigned, BInt bitand / bitor / bitxor / not", True, "", C06),
+    "C07": ("sign", "signum, is_positive, is_negative; BInt eq / ne / cmp, BUint ne", True, "", C07),
+    "C08": ("pow", "pow, ilog2, checked_ilog2, bint checked_pow / overflowing_pow", True, C08_PRELUDE, C08),
 }
